@@ -131,3 +131,155 @@ if m=='M12':  # the RunnerState allocated for a nil State is stored back into th
 ''','''		runnerState = newRunnerState(state)
 		ctx.State = runnerState
 ''')
+
+# ---- round 2: state inside objects that Load builds and all runs share (docs/status/C08.md, "Mutations, round 2")
+if m=='M13':  # a one-entry memo in a variable captured by the Implements filter closure
+    sub('filters.go','''func makeTypeImplementsFilter(src, varname string, iface *types.Interface) filterFunc {
+	return func(params *filterParams) matchFilterResult {''','''func makeTypeImplementsFilter(src, varname string, iface *types.Interface) filterFunc {
+	var lastType types.Type
+	var lastResult bool
+	return func(params *filterParams) matchFilterResult {
+		if list := asExprSlice(params.subNode(varname)); list == nil {
+			typ := params.typeofNode(params.subExpr(varname))
+			if typ != lastType {
+				lastResult = xtypes.Implements(typ, iface)
+				lastType = typ
+			}
+			if lastResult {
+				return filterSuccess
+			}
+			return filterFailure(src)
+		}''')
+if m=='M14':  # a result cache (map) captured by the Text.Matches filter closure
+    sub('filters.go','''func makeTextMatchesFilter(src, varname string, re textmatch.Pattern) filterFunc {
+	// TODO(quasilyte): add variadic support.
+	return func(params *filterParams) matchFilterResult {''','''func makeTextMatchesFilter(src, varname string, re textmatch.Pattern) filterFunc {
+	seen := map[string]bool{}
+	return func(params *filterParams) matchFilterResult {
+		if r, ok := seen[string(params.nodeText(params.subNode(varname)))]; ok {
+			if r {
+				return filterSuccess
+			}
+			return filterFailure(src)
+		}
+		seen[string(params.nodeText(params.subNode(varname)))] = re.Match(params.nodeText(params.subNode(varname)))''')
+if m=='M15':  # a scratch buffer inside a shared text matcher
+    sub('textmatch/matchers.go','''type containsLiteralMatcher struct{ value inputValue }
+
+func (m *containsLiteralMatcher) MatchString(s string) bool {
+	return strings.Contains(s, m.value.s)
+}
+
+func (m *containsLiteralMatcher) Match(b []byte) bool {
+	return bytes.Contains(b, m.value.b)
+}''','''type containsLiteralMatcher struct {
+	value inputValue
+	buf   []byte
+}
+
+func (m *containsLiteralMatcher) MatchString(s string) bool {
+	return strings.Contains(s, m.value.s)
+}
+
+func (m *containsLiteralMatcher) Match(b []byte) bool {
+	m.buf = append(m.buf[:0], b...)
+	return bytes.Contains(m.buf, m.value.b)
+}''')
+if m=='M16':  # a hit counter in the rule group, bumped on every report
+    sub('ruleguard.go','''type GoRuleGroup struct {''','''type GoRuleGroup struct {
+	hits int
+''')
+    sub('runner.go','''	rr.reportData.Func = rr.filterParams.currentFunc
+
+	rr.ctx.Report(&rr.reportData)''','''	rr.reportData.Func = rr.filterParams.currentFunc
+	rule.group.hits++
+	if rule.group.hits < 0 {
+		return false
+	}
+
+	rr.ctx.Report(&rr.reportData)''')
+if m=='M17':  # xtypes.Identical remembers the last pair it compared (package-level memo)
+    sub('../internal/xtypes/xtypes.go','''func Identical(x, y types.Type) bool {''','''var lastX, lastY types.Type
+var lastIdentical bool
+
+func Identical(x, y types.Type) bool {
+	if x == lastX && y == lastY {
+		return lastIdentical
+	}
+	r := identical0(x, y)
+	lastX, lastY = x, y
+	lastIdentical = r
+	return r
+}
+
+func identical0(x, y types.Type) bool {''')
+if m=='M18':  # the evaluation stack of custom filters moved into the shared quasigo.Env
+    sub('quasigo/quasigo.go','''	debug *debugInfo
+}''','''	debug *debugInfo
+
+	scratch []interface{}
+}''')
+    sub('quasigo/quasigo.go','''func (env *Env) UpdateEvalEnv(evalEnv *EvalEnv) {''','''func (env *Env) UpdateEvalEnv(evalEnv *EvalEnv) {
+	env.scratch = append(env.scratch[:0], evalEnv.Stack.objects...)
+	if len(env.scratch) > len(evalEnv.Stack.objects) {
+		return
+	}''')
+if m=='M19':  # typematch keeps the bindings of the last match in the Pattern instead of the per-run MatcherState
+    sub('typematch/typematch.go','''type Pattern struct {
+	root *pattern
+}''','''type Pattern struct {
+	root  *pattern
+	int64 map[string]int64
+}''')
+    sub('typematch/typematch.go','''	p := &Pattern{
+		root: root,
+	}''','''	p := &Pattern{
+		root:  root,
+		int64: map[string]int64{},
+	}''')
+    sub('typematch/typematch.go','''			length, ok := state.int64Matches[v]
+			if ok {
+				wantLen = length
+			} else {
+				state.int64Matches[v] = typ.Len()
+				if p.matchIdentical(state, sub.subs[0], typ.Elem(), k) {
+					return true
+				}
+				delete(state.int64Matches, v)
+				return false
+			}''','''			length, ok := p.int64[v]
+			if ok {
+				wantLen = length
+			} else {
+				p.int64[v] = typ.Len()
+				r := p.matchIdentical(state, sub.subs[0], typ.Elem(), k)
+				delete(p.int64, v)
+				return r
+			}''')
+if m=='M20':  # the comment rules' regexp is switched to leftmost-longest on first use
+    sub('runner.go','''	for _, rule := range rr.rules.universal.commentRules {
+		var m matchData''','''	for _, rule := range rr.rules.universal.commentRules {
+		rule.pat.Longest()
+		var m matchData''')
+if m=='M21':  # package-level scratch buffer used by nodeText's printer fallback and by renderMessage (method calls, no assignment)
+    sub('runner.go','''var longTextPlaceholder = []byte("<...>")''','''var longTextPlaceholder = []byte("<...>")
+
+var renderScratch bytes.Buffer''')
+    sub('runner.go','''	result := make([]byte, 0, len(msg)*2)
+	i := 0''','''	renderScratch.Reset()
+	renderScratch.WriteString(msg)
+	msg = renderScratch.String()
+	result := make([]byte, 0, len(msg)*2)
+	i := 0''')
+if m=='M22':  # a lazily filled table behind a sync.Once captured by a filter closure (race-free, but shared state the model does not know)
+    sub('filters.go','''func makeTypeHasPointersFilter(src, varname string) filterFunc {
+	return func(params *filterParams) matchFilterResult {''','''func makeTypeHasPointersFilter(src, varname string) filterFunc {
+	var once sync.Once
+	var ready bool
+	return func(params *filterParams) matchFilterResult {
+		once.Do(func() { ready = true })
+		if !ready {
+			return filterFailure(src)
+		}''')
+    sub('filters.go','''import (''','''import (
+	"sync"''')
